@@ -267,7 +267,8 @@ func TypeInv(v *Term, t types.Type, depth int) *Term {
 		}
 	case *types.Slice:
 		if isSliceSort(v.Sort) {
-			return Ge(SelField(v, 0), IntLit(0))
+			// lengths are non-negative ints (well below the int64 limit: a slice cannot hold 2^62 elements)
+			return And(Ge(SelField(v, 0), IntLit(0)), Le(SelField(v, 0), BigLit(new(big.Int).Lsh(big.NewInt(1), 62))))
 		}
 	case *types.Struct:
 		if v.Sort.Kind != KData {
